@@ -5483,10 +5483,8 @@ class DfaCompileCtx:
                 if ignore_map_counter[(frozenset(to_replace.on_values), to_replace.target)] > max_count:
                     continue
 
-            # Shortcircuit the transition
-            if to_replace.error_handling:
-                transition.handles_else()
-
+            # Shortcircuit the transition. (It keeps its own error mark: it still consumes what it consumed for the reason it did; the mark of
+            # the step behind it -- which a yield that ends a block carries without being an error -- says nothing about that.)
             transition.attach(*to_replace.actions)
             transition.to(to_replace.target)
 
